@@ -1256,6 +1256,12 @@ def client_builds_from_data(check: Check, repo: Repo, rule: str = "CLIENT-FROM-D
         rets = [r for r in ast.walk(fn) if isinstance(r, ast.Return) and r.value is not None and enclosing_function(r) is fn]
         for r in rets:
             v = r.value
+            if isinstance(v, ast.Name):
+                # `directive = GraphQLDirective(...); return directive`
+                defs = [s_.value for s_ in ast.walk(fn) if isinstance(s_, ast.Assign) and len(s_.targets) == 1
+                        and isinstance(s_.targets[0], ast.Name) and s_.targets[0].id == v.id]
+                if len(defs) == 1:
+                    v = defs[0]
             ok = isinstance(v, ast.Call) and call_name(v) == cls
             n += 1
             check.ob(rule, r, f"{name}: return {node_text(v, 50)}", ok,
